@@ -219,6 +219,15 @@ func genC01(r *Rng) *Plan {
 	for i := range hosts {
 		hosts[i] = cfg.Routes[i].From
 	}
+	if r.Chance(1, 3) {
+		// the same host name on another port is another upstream with its own rules: a browser sends it the first one's
+		// cookie (cookies do not know ports), and that session was issued for exactly the other host
+		cfg.Routes = append(cfg.Routes, Route{Service: "app1port", From: hosts[0] + ":8443", To: "app1port.backend.sim", Backend: []string{"app1port.backend.sim"},
+			Options: map[string]any{"allowed_email_addresses": []string{r.Pick("bob@example.com", "carol@other.org")}}})
+		hosts = append(hosts, hosts[0]+":8443")
+		nUp++
+		p.Gen = "mediation+port"
+	}
 	users := []string{"alice@example.com", "bob@example.com", "carol@other.org", "mallory@evil.com"}
 	paths := []string{"/", "/private/x", "/public/a.txt", "/public/../private", "/health", "/healthz", "/img/a.png", "/a.png/b", "/api/open/1", "/api/openx", "/x/static/y", "/oauth2/auth",
 		"/favicon.ico", "/public%2f..%2fprivate", "/%70ublic/x", "/private?x=/public/y", "/robots.txt", "/oauth2/v1/certs", "/ping"}
